@@ -9,7 +9,7 @@ macro "op_split" f:ident : tactic => `(tactic| (unfold $f; (try dsimp only); rep
 
 theorem slash_shape {s s1 : State} {r : ReqId} {svc : SvcName} {p : Addr} {e : List Effect}
     (h : slash s r svc p = .done s1 e) :
-    s1 = s ∨ ∃ bank' bs, s1 = { s with bank := bank', bindings := bs } := by
+    s1 = s ∨ ∃ bank' b', s1 = { s with bank := bank', bindings := Map.set s.bindings (svc, p) b' } := by
   unfold slash at h; dsimp only at h
   repeat' split at h
   all_goals first
